@@ -597,6 +597,9 @@ func (s *SourceControl) CoupleErrToFB(couple *bool, reply *bool) error {
 		}
 		err := s.ActiveSource.SetCoupling(c)
 		s.clientUpdates <- ClientUpdate{"TRIGCOUPLING", c}
+		// FB/error coupling is made of group-trigger connections, so report those, too.
+		state := s.ActiveSource.ComputeGroupTriggerState()
+		s.clientUpdates <- ClientUpdate{"GROUPTRIGGER", state}
 		s.queuedResults <- err
 	}
 	err := s.runLaterIfActive(f)
@@ -613,6 +616,9 @@ func (s *SourceControl) CoupleFBToErr(couple *bool, reply *bool) error {
 		}
 		err := s.ActiveSource.SetCoupling(c)
 		s.clientUpdates <- ClientUpdate{"TRIGCOUPLING", c}
+		// FB/error coupling is made of group-trigger connections, so report those, too.
+		state := s.ActiveSource.ComputeGroupTriggerState()
+		s.clientUpdates <- ClientUpdate{"GROUPTRIGGER", state}
 		s.queuedResults <- err
 	}
 	err := s.runLaterIfActive(f)
@@ -648,13 +654,14 @@ func (s *SourceControl) changeGroupTriggerCoupling(turnon bool, gts *GroupTrigge
 func (s *SourceControl) StopTriggerCoupling(dummy *bool, reply *bool) error {
 	f := func() {
 		err := s.ActiveSource.StopTriggerCoupling()
-		state := s.ActiveSource.ComputeGroupTriggerState()
-		s.clientUpdates <- ClientUpdate{"GROUPTRIGGER", state}
 		if err == nil {
 			c := NoCoupling
 			err = s.ActiveSource.SetCoupling(c)
 			s.clientUpdates <- ClientUpdate{"TRIGCOUPLING", c}
 		}
+		// Report the connections only after every change to them has been made.
+		state := s.ActiveSource.ComputeGroupTriggerState()
+		s.clientUpdates <- ClientUpdate{"GROUPTRIGGER", state}
 		s.queuedResults <- err
 	}
 	err := s.runLaterIfActive(f)
